@@ -238,6 +238,17 @@ def build_mesh(ms, subs):
     return fieldio.build_mesh(ms, subregions=sr or None)
 
 
+def _rand_bc(rng, ndim):
+    """periodic directions / one of the two words on a third of the meshes (default axis names x, y, z): sampling, line
+    points and face probes are asked on such meshes too - the boundary conditions have no say in them"""
+    r = rng.random()
+    if r >= 0.35 or ndim > 3:
+        return ""
+    if r < 0.07:
+        return rng.choice(["neumann", "dirichlet"])
+    return "".join(d for d in "xyz"[:ndim] if rng.random() < 0.7)
+
+
 def gen_src(rng, ms, k1, k2, nv, kind, contained=True):
     """source field description on a coarser / finer / shifted mesh containing the box [k1,k2) of mesh ms"""
     pmin, cell, n = mesh_geom(ms)
@@ -805,7 +816,7 @@ def gen_label_variant(rng, nv, ms):
 
 
 def gen_init(rng, tier, force_kind=None):
-    ms = fieldio.gen_mesh_spec(rng, max_cells=72 if tier == "quick" else 120, nmax=6)
+    ms = fieldio.gen_mesh_spec(rng, max_cells=72 if tier == "quick" else 120, nmax=6, bc_prob=0.3)   # boundary conditions have no say in any value
     subs = gen_subs(rng, ms["n"], rng.choice([0, 1, 2, 2, 3, 3]))
     kind = force_kind or rng.choice(KINDS)
     nv = rng.choice([1, 1, 2, 3, 3, 4])
@@ -839,7 +850,7 @@ def gen_labels_case(rng, ms, kind, nv):
 
 
 def gen_malformed(rng, tier):
-    ms = fieldio.gen_mesh_spec(rng, max_cells=48, nmax=5)
+    ms = fieldio.gen_mesh_spec(rng, max_cells=48, nmax=5, bc_prob=0.3)
     subs = gen_subs(rng, ms["n"], rng.choice([0, 1, 2]))
     kind = rng.choice(KINDS)
     nv = rng.choice([1, 2, 3, 4])
@@ -901,7 +912,7 @@ def gen_tol(rng, tier, big=False):
     scale = rng.choice([1e-12, 1e-10, 1e-9, 1e-9, 1e-6, 1e-3, 1.0, 10.0, 1e3, 1e6, 1e9])
     edge = [scale * rng.choice([1.0, 1 / 3, 0.7, 2.5]) * rng.uniform(0.5, 2) for _ in range(ndim)]
     pmin = [rng.choice([0.0, 1.0, -1.0, 17.3]) * e + rng.uniform(-1, 1) * e for e in edge]
-    ms = dict(p1=pmin, p2=[a + e for a, e in zip(pmin, edge)], n=n, dims=None, bc="")
+    ms = dict(p1=pmin, p2=[a + e for a, e in zip(pmin, edge)], n=n, dims=None, bc=_rand_bc(rng, ndim))
     subs = gen_subs(rng, n, rng.choice([0, 1, 2]))
     nv = rng.choice([1, 2, 3])
     kind = rng.choice(["float", "float", "complex"])
@@ -974,7 +985,7 @@ def gen_near(rng, tier, big=False):
     for a in range(ndim):                                    # corners in any order
         if rng.random() < 0.3:
             p1[a], p2[a] = p2[a], p1[a]
-    ms = dict(p1=p1, p2=p2, n=n, dims=None, bc="")
+    ms = dict(p1=p1, p2=p2, n=n, dims=None, bc=_rand_bc(rng, ndim))
     return dict(kind="near", mesh=ms, subs=[], dtype=rng.choice(["float", "float", "int", "complex", "bool"]),
                 nvdim=rng.choice([1, 1, 2, 3]), vdims=None, dtype_arg=True, spec=dict(k="ids"), scale=scale, big=big,
                 offset=(off if mode >= 0.5 else 0.0), sub=rng.getrandbits(32))
